@@ -59,7 +59,8 @@ namespace RecInt
 {
     // a = b^c mod a.p
     template <size_t K>
-    inline void exp(rmint<K, MGA>& a, const rmint<K, MGA>& b, const ruint<K>& c) {
+    inline void exp(rmint<K, MGA>& a, const rmint<K, MGA>& b, const ruint<K>& c0) {
+        const ruint<K> c(c0); // c0 may be a.Value: the limbs of the exponent are read while a is being written
         limb **tab, **originalTab;
         originalTab = (limb**)malloc(NBLIMB<K>::value * sizeof(limb*)); // TODO Cleaner avec iterateurs
         pointers_list(originalTab, c);
